@@ -11,7 +11,7 @@ PROPERTY = 'C13'
 LEVEL = 'fault_enumeration'
 RULE = (
     'pipe throughput in {1/2, 1, 3, 8, inf (UnboundedPipe and Pipe(inf))}, 1-8 participants each doing 1-3 transfers with '
-    'volumes {0, 1/8 .. 64} and limits {None, 1/4 .. 16, > throughput, inf}, overlapping start '
+    'volumes {0, 1/8 .. 64} and limits {None, 1/4 .. 16, > throughput, 2**60, 1e17, inf}, overlapping start '
     'times, joins and leaves mid-flight; un-injected run plus cancel / until-interrupt / close '
     'of a participant injected at activation boundaries (quick: sampled; thorough: every '
     'boundary x participant x kind). Oracle: every completion time logged by the real code is '
@@ -33,7 +33,8 @@ REQUIRED_STATS = ['completions_checked', 'overlapping_runs', 'signals_landed', '
                   'struck:interrupt', 'struck:close']
 
 VOLUMES = [0, 0.125, 0.5, 1, 1, 2, 3, 5, 8, 16, 64]
-LIMITS = [None, None, None, 0.25, 0.5, 1, 2, 4, 16, 'inf']
+# huge finite limits (practically unlimited) swamp the others in float sums: 2**60, 1e17
+LIMITS = [None, None, None, 0.25, 0.5, 1, 2, 4, 16, 'inf', 2.0 ** 60, 1e17]
 OFFSETS = [0, 0, 0, 0.5, 1, 1, 2, 3]
 
 
